@@ -696,7 +696,7 @@ class Interp:
             return EnumSym(td.args[0], expr)
         if k == 'cls':
             cls = td.args[0]
-            if cls.is_dataclass:
+            if cls.is_dataclass and cls.qualname not in self.sorts.opaque_classes:
                 v = DtV(cls, expr)
                 self.apply_class_invs(v, path)
                 return v
@@ -727,7 +727,7 @@ class Interp:
             return expr
         if k == 'enum':
             return EnumSym(td.args[0], expr)
-        if k == 'cls' and td.args[0].is_dataclass:
+        if k == 'cls' and td.args[0].is_dataclass and td.args[0].qualname not in self.sorts.opaque_classes:
             return DtV(td.args[0], expr)
         if k == 'union':
             return UnionV(td.args[0], expr)
@@ -849,6 +849,11 @@ class Interp:
 
     def union_getattr(self, u: UnionV, name, path):
         uni = u.uni
+        known = path.known_constructor(u.expr)
+        if known is not None:
+            for c in uni['classes']:
+                if uni['recognizer'][c].eq(known):
+                    return self.getattr_(DtV(c, uni['unwrap'][c](u.expr)), name, path)
         having = [c for c in uni['classes'] if any(f == name for f, _ in self.sorts.fields_of(c)) or c.lookup(name)]
         if not having:
             self.raise_builtin('AttributeError', name)
